@@ -23,7 +23,7 @@ FLOORS = {
                  'value_errors_judged': 2000},
 }
 BUDGET = {'quick': {'random': 20000, 'k3_sample': 0.1, 'envs': 16},
-          'thorough': {'random': 120000, 'k3_sample': 1.0, 'envs': 32}}
+          'thorough': {'random': 900000, 'k3_sample': 1.0, 'envs': 32}}
 TIMEOUT = {'quick': 900, 'thorough': 7200}
 
 THIS = ('msg', {'p': gen.BOOL, 'q': gen.BOOL, 'xs': ('arr', gen.NUM, -1), 'ys': ('arr', gen.NUM, -1), 'x': gen.NUM}, {})
